@@ -65,7 +65,8 @@ def seeded_run(case, unit):
         l.repair_time_dist = StatDist(StatDistType.UNIFORM_FLOAT, UniformParameters(min_val=2.0, max_val=3.0))
     sim = Simulation(ps, random_seed=case["seed"])
     dt_h = F(case["dt"])
-    step = Time(float(dt_h * 3600 / c17.FACT[unit]), c17.U(unit))
+    su = case.get("step_unit") or unit           # the step may be written in another unit than the reporting unit
+    step = Time(float(dt_h * 3600 / c17.FACT[su]), c17.U(su))
     d = acct.tmpdir(f"c18_{unit}")
     n = case["n_inc"]
     total_h = dt_h * n
@@ -76,7 +77,11 @@ def seeded_run(case, unit):
         fails.append((round(curr_time.get_hours(), 9), tuple(l.name for l in ps.lines if l.failed),
                       tuple(round(l.remaining_outage_time.get_hours(), 9) for l in ps.lines)))
     with contextlib.redirect_stdout(io.StringIO()):
-        sim.run_sequential(start_time=TimeStamp(), stop_time=stop, time_step=step, time_unit=c17.U(unit), callback=cb, save_dir=d, save_flag=True)
+        if case.get("entry", "seq") == "seq":
+            sim.run_sequential(start_time=TimeStamp(), stop_time=stop, time_step=step, time_unit=c17.U(unit), callback=cb, save_dir=d, save_flag=True)
+        else:
+            sim.run_monte_carlo(iterations=1, start_time=TimeStamp(), stop_time=stop, time_step=step, time_unit=c17.U(unit), callback=cb,
+                                save_dir=d, save_iterations=[1], debug=True)
     hist = {name: {round(float(t) * float(c17.FACT[unit] / 3600), 9): v for t, v in ps.history[name].items()} for name in ("ENS", "SAIDI", "SAIFI")}
     return {"fails": fails, "hist": hist, "ens": [float(b.acc_p_energy_shed) for b in ps.buses],
             "outage": [round(b.acc_outage_time.get_hours(), 9) for b in ps.buses], "nlog": len(ps.history["ENS"])}
@@ -106,7 +111,7 @@ def seeded_case(case):
                 if any(abs(r["hist"][name][t] - base["hist"][name][t]) > 1e-9 * max(1, abs(base["hist"][name][t])) for t in base["hist"][name]):
                     viols.append(("unit.index", f"reporting unit {UNITS[u]} vs HOUR: {name} history differs"))
     nf = sum(1 for f in base["fails"] if f[1])
-    return dict(ops=[], impl=[], viols=viols[:3], nontrivial=("seeded", tuple(case["units"]), min(nf, 10), base["nlog"] > 0), tag="seeded")
+    return dict(ops=[], impl=[], viols=viols[:3], nontrivial=("seeded", tuple(case["units"]), min(nf, 10), base["nlog"] > 0, case.get("entry"), case.get("step_unit")), tag="seeded")
 
 
 def gen(rng, ne, ns):
@@ -121,8 +126,10 @@ def gen(rng, ne, ns):
         units = rng.sample([1, 2, 4], 2)
         # steps exactly representable as floats in every unit used (1/48 day is not: float drift of timers is outside the property)
         dt = rng.choice([F(3), F(6)]) if 4 in units else rng.choice([F(1), F(1, 2)])
+        # entry point (sequential / Monte Carlo) and, for half of the cases, a step written in another unit than the reporting one
         cases.append({"kind": "seeded", "spec": spec, "n_inc": rng.choice([24, 36]), "dt": str(dt), "seed": rng.randint(0, 10 ** 6),
-                      "rate": rng.choice([300.0, 800.0]) / float(dt), "units": units})
+                      "rate": rng.choice([300.0, 800.0]) / float(dt), "units": units, "entry": rng.choice(["seq", "mc"]),
+                      "step_unit": rng.choice([None, None, 3, 2])})
     return cases
 
 
@@ -130,7 +137,7 @@ def run(res):
     rng = random.Random(res.seed * 10039 + 89)
     ne, ns = (20, 6) if res.tier == "quick" else (500, 150)
     res.rule = ("exact: manual-control scenarios with 1-3 scripted faults run in HOUR and two of SECOND/MINUTE/DAY/WEEK (steps 1, 1/2, 1/4 h exact in every unit); "
-                "seeded: random line failures (300-800 /year) with repair times drawn from U(2,3) h, 24-36 increments, HOUR vs two of SECOND/MINUTE/DAY through run_sequential "
+                "seeded: random line failures (300-800 /year) with repair times drawn from U(2,3) h, 24-36 increments, HOUR vs two of SECOND/MINUTE/DAY through run_sequential or run_monte_carlo (debug), the step written in the reporting unit or in hours / minutes "
                 "with saving on. non-trivial = distinct (kind, units, trace length / number of failure increments, anything interrupted)")
     run_cases(res, gen(rng, ne, ns), handler, lambda case, m, i: (not m) or [ctl.strip_ok(x) for x in m] == i)
 
